@@ -1,0 +1,45 @@
+//go:build verif
+
+package cache
+
+// Contracts for the deductive verifier in /verif (govc). Comments only; compiled solely with -tags verif.
+
+// ---------------------------------------------------------------------------------------------
+// Directory cache cleaning (C14)
+//
+// An entry name is a base64 key (28/29 or 44/45 characters with '=' padding at index 27 / 43),
+// followed by the cache suffix; entries are directories exactly when the cache is not compressed.
+//
+//@ spec keyLike(n string) bool = ((len(n) == 28 || len(n) == 29) && n[27] == '=') || ((len(n) == 44 || len(n) == 45) && n[43] == '=')
+//@ spec isEntryName(compress bool, suffix string, name string, isDir bool) bool = compress != isDir && hasSuffix(name, suffix) && \
+//@      keyLike(substr(name, 0, len(name) - len(suffix)))
+//
+//@ func (dirCache).shouldClean
+//@   requires cache != nil
+//@   modifies nothing
+//@   ensures spec [C14]: result == isEntryName(cache.Compress, cache.Suffix, name, isDir)
+//
+//@ func (dirCache).markDir
+//@   requires cache != nil && cache.added != nil
+//@   ensures marked [C14]: in(path, cache.added) && in(path + "=", cache.added)
+//@   ensures never_unmarked [C14]: forall k string :: old(in(k, cache.added)) ==> in(k, cache.added)
+//
+//@ func (dirCache).isMarked
+//@   requires cache != nil && cache.added != nil
+//@   modifies nothing
+//@   ensures spec [C14]: result1 == in(path, cache.added)
+//
+//@ spec entryPath(compress bool, suffix string, p string) bool = isEntryName(compress, suffix, filepath.Base(p), !compress)
+//
+//@ func (dirCache).clean
+//@   requires cache != nil && cache.added != nil
+//@   opt panics=allowed
+//@   invariant "walk fs.Walk" entries: forall k int :: 0 <= k && k < len(entries) ==> entryPath(cache.Compress, cache.Suffix, entries[k].Path)
+//@   invariant "walk fs.Walk" cache: cache.added != nil
+//@   invariant "range entries" entries: forall k int :: 0 <= k && k < len(entries) ==> entryPath(cache.Compress, cache.Suffix, entries[k].Path)
+//@   invariant "range entries" cache: cache.added != nil
+//@   callsite os.Rename unmarked [C14]: !in(arg_oldpath, cache.added)
+//@   callsite os.Rename whole_entry [C14]: entryPath(cache.Compress, cache.Suffix, arg_oldpath)
+//@   callsite os.Rename tmpname [C14]: arg_newpath == arg_oldpath + "="
+//@   callsite fs.RemoveAll renamed_only [C14]: exists k int :: 0 <= k && k < len(entries) && arg_path == entries[k].Path + "=" && \
+//@      !in(entries[k].Path, cache.added)
